@@ -67,6 +67,10 @@ def tasks(tier, seed):
             (3, 1, 4, False, True), (3, 2, 5, False, True), (3, 2, 4, True, True)] if quick else \
            [(1, 3, 4, False, True), (2, 2, 5, False, True), (2, 3, 5, True, True), (2, 2, 5, False, False), (3, 2, 6, False, True),
             (3, 3, 5, False, True), (3, 2, 6, True, True), (3, 2, 5, False, False), (4, 1, 6, False, True), (4, 2, 6, False, True)]
+    shr = [(2, 1, 3, False, True), (3, 1, 4, False, True), (2, 2, 3, True, True), (4, 1, 5, False, True)] if quick else \
+          [(2, 2, 4, False, True), (3, 1, 5, False, True), (3, 2, 4, True, True), (4, 1, 6, False, True), (4, 1, 5, False, False)]
+    for h in shr:  # restarts that halve the step size, blocks longer than the remaining interval included
+        T.append(('hist',) + h + ([], True))
     for h in hist:
         depth = 0 if h[0] < 3 else (3 if quick else 4)
         for bits in range(2 ** depth):
@@ -87,7 +91,7 @@ def run_task(rep, task):
     elif task[0] == 'adapt':
         adapt_case(rep)
     elif task[0] == 'hist':
-        hist_case(rep, *task[1:])
+        hist_case(rep, *task[1:7], shrink=(task[7] if len(task) > 7 else False))
 
 
 def base_desc(dt=DT, NL=1, extra_cc=None):
@@ -566,7 +570,7 @@ def adapt_case(rep):
 
 # ------------------------------------------------------------------------------------------------ (b) histories
 
-H = {'att': {}, 'log': [], 'maxr': 0}
+H = {'att': {}, 'log': [], 'maxr': 0, 'shrink': False}
 
 
 class Inject(ConvergenceController):
@@ -578,8 +582,13 @@ class Inject(ConvergenceController):
             key = round(float(S.time), 9)
             n = H['att'].get(key, 0)
             H['att'][key] = n + 1
-            if n <= H['maxr'] + 1:
+            if n <= H['maxr'] + 1 and (not H['shrink'] or H.get('granted', 0) < 2):
                 S.status.restart = bool(SymBool(z3.Bool(f'rs_{key}_{n}')))
+                if S.status.restart:
+                    H['granted'] = H.get('granted', 0) + 1  # shrinking histories: at most two restart requests per run (bounds the path count)
+                if S.status.restart and H['shrink']:
+                    for L in S.levels:  # a rejected step proposes half its step size (exactly representable)
+                        L.status.dt_new = L.params.dt / 2
 
 
 class RecH(Hooks):
@@ -590,16 +599,15 @@ class RecH(Hooks):
                          int(step.status.restarts_in_a_row)))
 
 
-def hist_run(c, NP, MAXR, NSTEPS, FIRST, CRASH, extra_hooks=()):
+def hist_run(c, NP, MAXR, NSTEPS, FIRST, CRASH, extra_hooks=(), shrink=False):
     H['att'] = {}
     H['log'] = []
     H['maxr'] = MAXR
-    desc = base_desc(extra_cc={Inject: {}})
+    H['shrink'] = shrink
+    H['granted'] = 0
+    # the restart mode is given in the description, so that the REAL BasicRestarting.dependencies configures the step-size spreader for it
+    desc = base_desc(extra_cc={Inject: {}, BasicRestartingNonMPI: {'max_restarts': MAXR, 'restart_from_first_step': FIRST, 'crash_after_max_restarts': CRASH}})
     ctl = controller_nonMPI(NP, {'logger_level': 50, 'dump_setup': False, 'hook_class': [RecH] + list(extra_hooks), 'mssdc_jac': False}, desc)
-    C = get_cc(ctl, BasicRestartingNonMPI)
-    C.params.max_restarts = MAXR
-    C.params.restart_from_first_step = FIRST
-    C.params.crash_after_max_restarts = CRASH
     P = ctl.MS[0].levels[0].prob
     u0 = P.u_exact(0)
     try:
@@ -609,7 +617,7 @@ def hist_run(c, NP, MAXR, NSTEPS, FIRST, CRASH, extra_hooks=()):
     return dict(status='ok', log=list(H['log']), u=complex(u[0]), stats=stats, u0=complex(u0[0]))
 
 
-def hist_judge(r, NP, MAXR, NSTEPS, FIRST, CRASH):
+def hist_judge(r, NP, MAXR, NSTEPS, FIRST, CRASH, shrink=False):
     """clauses violated by one history (plain data)"""
     bad = []
     log = r['log']
@@ -617,7 +625,7 @@ def hist_judge(r, NP, MAXR, NSTEPS, FIRST, CRASH):
     for (slot, tm, dt, u0, ue, rs, nr) in log:
         per_time.setdefault(round(tm, 9), []).append(rs)
     # retry budget: a step (identified by its start time; dt is fixed here) is restarted at most max_restarts times in a row
-    for tm, flags in per_time.items():
+    for tm, flags in (per_time.items() if not shrink else []):
         run_ = 0
         for f in flags:
             run_ = run_ + 1 if f else 0
@@ -632,7 +640,7 @@ def hist_judge(r, NP, MAXR, NSTEPS, FIRST, CRASH):
     acc = [l for l in log if not l[5]]
     tcur, ucur = 0.0, r['u0']
     for (slot, tm, dt, u0, ue, rs, nr) in acc:
-        if tm != tcur:
+        if (tm != tcur) if not shrink else (abs(tm - tcur) > 1e-12):
             bad.append(('tiling', {'start': tm, 'expected': tcur}))
             break
         if u0 != ucur:
@@ -658,6 +666,8 @@ def hist_judge(r, NP, MAXR, NSTEPS, FIRST, CRASH):
     for b, nb in zip(blocks, blocks[1:]):
         rst = [l for l in b if l[5]]
         if rst:
+            if shrink and nb[0][2] >= rst[0][2]:
+                bad.append(('retry-not-smaller', {'time': rst[0][1], 'dt': rst[0][2], 'retry_dt': nb[0][2]}))
             if nb[0][1] != rst[0][1] or nb[0][3] != rst[0][3]:
                 bad.append(('restart-point', {'next_block_start': nb[0][1], 'first_restarted': rst[0][1]}))
             # all later steps restart too
@@ -674,12 +684,12 @@ def hist_judge(r, NP, MAXR, NSTEPS, FIRST, CRASH):
     return bad
 
 
-def hist_case(rep, NP, MAXR, NSTEPS, FIRST, CRASH, prefix, pid=PID, clauses=None):
-    name = f'hist/NP{NP}/maxr{MAXR}/steps{NSTEPS}/first{int(FIRST)}/crash{int(CRASH)}'
+def hist_case(rep, NP, MAXR, NSTEPS, FIRST, CRASH, prefix, pid=PID, clauses=None, shrink=False):
+    name = f'hist/NP{NP}/maxr{MAXR}/steps{NSTEPS}/first{int(FIRST)}/crash{int(CRASH)}' + ('/shrink' if shrink else '')
 
     def fn(c):
-        r = hist_run(c, NP, MAXR, NSTEPS, FIRST, CRASH)
-        bad = hist_judge(r, NP, MAXR, NSTEPS, FIRST, CRASH)
+        r = hist_run(c, NP, MAXR, NSTEPS, FIRST, CRASH, shrink=shrink)
+        bad = hist_judge(r, NP, MAXR, NSTEPS, FIRST, CRASH, shrink=shrink)
         return dict(status=r['status'], bad=bad, log=[(l[0], l[1], l[5], l[6]) for l in r['log']], used=c.pos)
 
     paths = explore(fn, max_paths=300000, prefix=prefix)
@@ -704,7 +714,7 @@ def hist_case(rep, NP, MAXR, NSTEPS, FIRST, CRASH, prefix, pid=PID, clauses=None
         where = 'later-slot' if any(l[0] > 0 and l[2] for l in p.result['log']) else 'first-slot'
         rep.violation(f'{pid}/{clause}/{where}/first{int(FIRST)}',
                       f'{name}: {clause}: {str(bad[0][1])[:200]}; post_step log (slot, time, restart, restarts_in_a_row): {p.result["log"]}',
-                      {'task': ['hist', NP, MAXR, NSTEPS, FIRST, CRASH], 'decisions': p.decisions, 'violated': [(b[0], str(b[1])[:300]) for b in bad],
+                      {'task': ['hist', NP, MAXR, NSTEPS, FIRST, CRASH], 'shrink': shrink, 'decisions': p.decisions, 'violated': [(b[0], str(b[1])[:300]) for b in bad],
                        'log': p.result['log']})
     rep.extra['histories_by_config'] = rep.extra.get('histories_by_config', []) + [{'config': name, 'prefix': prefix, 'paths': len(paths), 'violating': nbad,
                                                                                    'crashes': sum(1 for p in paths if p.result['status'] == 'crash')}]
@@ -727,8 +737,8 @@ def replay(path):
         c = core.Ctx(d['decisions'])
         core.Ctx.cur = c
         try:
-            r = hist_run(c, *t[1:])
-            bad = hist_judge(r, *t[1:])
+            r = hist_run(c, *t[1:6], shrink=d.get('shrink', False))
+            bad = hist_judge(r, *t[1:6], shrink=d.get('shrink', False))
         finally:
             core.Ctx.cur = None
         print('post_step log:', [(l[0], l[1], l[5], l[6]) for l in r['log']])
